@@ -429,7 +429,11 @@ impl<const N: usize> Context<N> {
 }
 
 //@@ octo-squirrel/src/codec/shadowsocks/tcp.rs:60-64  struct AEADCipherCodec  sha=b91e742ceaa32d23
-#[derive(Default)]
+/// R6: the derived Default of AEADCipherCodec is replaced by its specification: no encoder, no decoder yet
+impl<const N: usize> AEADCipherCodec<N> {
+    #[verifier::external_body]
+    fn default() -> (r: Self) ensures r.encoder is None, r.decoder is None { unimplemented!() }
+}
 pub struct AEADCipherCodec<const N: usize> {
     encoder: Option<ChunkEncoder>,
     decoder: Option<ChunkDecoder>,
@@ -494,13 +498,26 @@ spec fn hs22<const N: usize>(ctx: Context<N>, mode: Mode, own_salt: Seq<u8>, add
 }
 /// legacy AEAD stream, first decode (shadowsocks.org AEAD spec): [salt][chunks..]; the sub-key is HKDF-SHA1(key, salt, "ss-subkey");
 /// whatever complete chunks follow the salt are delivered by the same call (no stall), an incomplete salt is left untouched
-spec fn legacy_first<const N: usize>(o: AEADCipherCodec<N>, c: Context<N>, s: Seq<u8>, f: AEADCipherCodec<N>, rest: Seq<u8>, r: anyhow::Result<Option<BytesMut>>) -> bool {
-    if s.len() < N { r matches Ok(None) && rest == s && f.decoder is None } else {
+/// what a keyed stream delivers from the plaintext `out` of the complete chunks at hand: those bytes -- except that a server which has not learnt the
+/// target yet (original AEAD ciphers; the 2022 header path has set it before) takes the target address from their start: exactly the address, exactly its bytes
+pub enum Dl { Nothing, Bytes(Seq<u8>), Error }
+spec fn dl_of(r: anyhow::Result<Option<BytesMut>>) -> Dl { match r { Ok(None) => Dl::Nothing, Ok(Some(b)) => Dl::Bytes(b@), Err(_) => Dl::Error } }
+spec fn deliver_ok(strip: bool, out: Seq<u8>, r: Dl, faddr: Option<Address>, oaddr: Option<Address>) -> bool {
+    if out.len() == 0 { r is Nothing && faddr == oaddr }
+    else if !strip { r == Dl::Bytes(out) && faddr == oaddr }
+    else { match parse5(out) {
+        Some((v, n)) => r == Dl::Bytes(out.skip(n as int)) && (faddr matches Some(a) && absaddr(a) == v && canonical(a)),
+        None => r is Error,
+    } }
+}
+spec fn wants_addr<const N: usize>(s: Session<N>) -> bool { s.mode is Server && s.address is None }
+spec fn legacy_first<const N: usize>(o: AEADCipherCodec<N>, c: Context<N>, s: Seq<u8>, f: AEADCipherCodec<N>, rest: Seq<u8>, r: Dl, strip: bool, faddr: Option<Address>, oaddr: Option<Address>) -> bool {
+    if s.len() < N { r is Nothing && rest == s && f.decoder is None && faddr == oaddr } else {
         let k = legacy_subkey(c.kind, c.key@, s.take(N as int));
         match parse(alg_of(c.kind), k, St::Length, nonce_init(), s.skip(N as int)) {
-            None => r is Err,
+            None => r is Error,
             Some(q) => f.decoder matches Some(d2) && d2.key() == k && d2.alg() == alg_of(c.kind) && d2.abs() == q.st && d2.n() == q.n && rest == q.rest
-                && (match r { Ok(Some(b)) => b@ == q.out && q.out.len() > 0, Ok(None) => q.out.len() == 0, Err(_) => false }),
+                && deliver_ok(strip, q.out, r, faddr, oaddr),
         }
     }
 }
@@ -611,15 +628,18 @@ impl<const N: usize> AEADCipherCodec<N> {
             old(self).decoder is Some ==> ({ let d = old(self).decoder.unwrap(); match parse(d.alg(), d.key(), d.abs(), d.n(), old(src)@) {
                 None => r is Err || old(src)@.len() == 0,
                 Some(q) => old(src)@.len() > 0 ==> (final(self).decoder matches Some(d2) && d2.auth.same_key(&d.auth) && d2.abs() == q.st && d2.n() == q.n && final(src)@ == q.rest
-                    && (match r { Ok(Some(b)) => b@ == q.out && q.out.len() > 0, Ok(None) => q.out.len() == 0, Err(_) => false })),
+                    && deliver_ok(wants_addr(*old(session)), q.out, dl_of(r), final(session).address, old(session).address)),
             }}),
+            //#C01 C14 C04
+            // whatever a server delivers, it has the target address by then (the relay dials it with the first item)
+            (r matches Ok(Some(_)) && old(session).mode is Server) ==> final(session).address is Some,
             //#C04
-            old(src)@.len() == 0 ==> (r matches Ok(None) && final(src)@ == old(src)@ && final(self).decoder == old(self).decoder),
+            old(src)@.len() == 0 ==> (r matches Ok(None) && final(src)@ == old(src)@ && final(self).decoder == old(self).decoder && final(session).address == old(session).address),
             //#C04 C01 C10
             // the replay cache is touched only by an accepted 2022 request: never while waiting, never by an established or legacy stream
             (r matches Ok(None) || old(self).decoder is Some || !context.kind.is_2022()) ==> final(vcache).salts == old(vcache).salts,
             //#C04 C03 C06 C01
-            (old(self).decoder is None && !context.kind.is_2022() && old(src)@.len() > 0) ==> legacy_first(*old(self), *context, old(src)@, *final(self), final(src)@, r),
+            (old(self).decoder is None && !context.kind.is_2022() && old(src)@.len() > 0) ==> legacy_first(*old(self), *context, old(src)@, *final(self), final(src)@, dl_of(r), wants_addr(*old(session)), final(session).address, old(session).address),
         decreases (if old(self).decoder is None { 2int } else { 0int }),
     {
         if src.is_empty() {
@@ -629,7 +649,14 @@ impl<const N: usize> AEADCipherCodec<N> {
             Some(ref mut decoder) => {
                 let mut dst = BytesMut::new();
                 decoder.decode_payload(src, &mut dst).map_err(|e| verif_err())?;
-                if dst.is_empty() { Ok(None) } else { Ok(Some(dst)) }
+                if dst.is_empty() {
+                    return Ok(None);
+                }
+                if matches!(session.mode, Mode::Server) && session.address.is_none() {
+                    // a request sealed with one of the original AEAD ciphers starts with the target address
+                    session.address = Some(address__decode(&mut dst)?);
+                }
+                Ok(Some(dst))
             }
             None => self.init_payload_decoder(context, session, src, Tracked(vcache)),
         }
@@ -644,7 +671,8 @@ impl<const N: usize> AEADCipherCodec<N> {
             //#C04 C01 C10
             (r matches Ok(None) || !context.kind.is_2022()) ==> final(vcache).salts == old(vcache).salts,
             //#C04 C03 C06 C01
-            !context.kind.is_2022() ==> legacy_first(*old(self), *context, old(src)@, *final(self), final(src)@, r),
+            !context.kind.is_2022() ==> legacy_first(*old(self), *context, old(src)@, *final(self), final(src)@, dl_of(r), wants_addr(*old(session)), final(session).address, old(session).address),
+            (r matches Ok(Some(_)) && old(session).mode is Server) ==> final(session).address is Some,
         decreases 1int,
     {
         if src.remaining() < session.identity.salt.len() {
@@ -675,6 +703,8 @@ impl<const N: usize> AEADCipherCodec<N> {
             //#C04 C01
             // waiting for the rest of the first chunk records nothing: the retry must not meet its own salt in the replay cache
             r matches Ok(None) ==> final(vcache).salts == old(vcache).salts,
+            //#C01 C14
+            (r matches Ok(Some(_)) && old(session).mode is Server) ==> final(session).address is Some,
             //#C10
             // an accepted request's salt was not in the cache, and is in it afterwards
             r matches Ok(Some(b)) ==> final(vcache).salts == old(vcache).salts.insert(old(src)@.take(N as int)),
